@@ -19,6 +19,7 @@ import time
 from .. import drive, env, httpfault, sched, world
 
 SPELLING = False  # this monitor controls the spelling of path arguments itself
+VERBOSITY = False  # stdout of verify -dh -co is parsed / runs must be identical
 LEVEL = "exploration"
 RULE = (
     "sweep case = (command incl. failing ones and --help/--version, tool ascmhl|ascmhl-debug) x server behaviour (immediate / "
@@ -60,7 +61,7 @@ def run_case(cs):
 # ------------------------------------------------------------------------------------------ (1) + (3)
 def _behaviour(rng):
     body = lambda tag: json.dumps({"tag_name": tag})
-    k = rng.choice(["ok", "ok", "delay", "delay", "delay", "hang", "rst", "close", "refused", "status", "trunc", "nonjson", "shape", "slowhead", "slowbody", "raw"])
+    k = rng.choice(["ok", "ok", "delay", "delay", "delay", "hang", "rst", "close", "refused", "status", "trunc", "nonjson", "shape", "slowhead", "slowbody", "raw", "redirect"])
     tag = rng.choice(TAGS)
     if k == "ok":
         return "ok:" + body(tag), "ok:" + str(tag)
@@ -80,6 +81,8 @@ def _behaviour(rng):
         return "slowhead:%s:%s" % (rng.choice([0.5, 1.5, 3]), body("v99.0.0")), "slowhead"
     if k == "slowbody":
         return "slowbody:%s:%s" % (rng.choice([0.5, 1.5, 3]), body("v99.0.0")), "slowbody"
+    if k == "redirect":
+        return "redirect:" + rng.choice(["loop", "ok:" + body("v99.0.0"), "ok:" + body("garbage")]), "redirect"
     if k == "raw":
         return "raw:" + rng.choice(["garbage\r\n\r\n", "HTTP/1.1 200 OK\r\n", "HTTP/9.9 999\r\n\r\n", "\x00\x01\x02"]), "raw"
     return k, k
